@@ -853,6 +853,9 @@ def reachable_mutable(roots):
     return acc
 
 
+USER_PROTOCOLS = {}
+
+
 def user_models(c):
     """(label, factory, mutators) of user-supplied mechanistic models; mutators are the public calls a user may make later"""
     from contracts import mech
@@ -869,6 +872,17 @@ def user_models(c):
             return m
         return f
 
+    def pkpd_protocol():
+        import myokit
+        m = c.PKPDModel(one)
+        m.set_administration('central', direct=True)
+        prot = myokit.Protocol()
+        prot.schedule(4.0, 1.0, 0.5)
+        prot.schedule(2.0, 2.5, 0.25)
+        m.set_dosing_regimen(prot)            # an explicit protocol object (this is also what the problem controller hands over)
+        USER_PROTOCOLS[id(m)] = prot          # the user keeps the object
+        return m
+
     def reduced():
         m = pkpd()()
         r = c.ReducedMechanisticModel(m)
@@ -883,12 +897,14 @@ def user_models(c):
         ('set_parameter_names', lambda m: m.set_parameter_names({m.parameters()[-1]: 'renamed'})),
         ('enable_sensitivities', lambda m: m.enable_sensitivities(not m.has_sensitivities())),
         ('simulate', lambda m: m.simulate(np.full(m.n_parameters(), 0.7), [0.5, 1.5])),
+        # the regimen object itself is the user's: extending it in place (e.g. one protocol that grows while likelihoods for dose groups are built)
+        ('protocol.schedule (in place)', lambda m: (USER_PROTOCOLS.get(id(m)) or m.dosing_regimen()).schedule(9.0, 0.3, 0.5)),
         ('fix_parameters', lambda m: m.fix_parameters({m.parameters()[0]: 0.123}) if hasattr(m, 'fix_parameters') else None),
         # re-fixing an already fixed parameter writes into the wrapper's value buffer
         ('fix_parameters(re-fix)', lambda m: m.fix_parameters({m.mechanistic_model().parameters()[1]: 7.7}) if hasattr(m, 'fix_parameters') else None),
         ('fix_parameters(release)', lambda m: m.fix_parameters({m.mechanistic_model().parameters()[1]: None}) if hasattr(m, 'fix_parameters') else None),
     ]
-    return [('PKPD(dosed)', pkpd(), mech_mut), ('PKPD(dosed, direct, sensitivities on)', pkpd(True, True), mech_mut), ('SBML(tumour growth)', lambda: c.SBMLModel([f for f in lib if f.endswith('tgi_Koch_2009.xml')][0]), mech_mut[2:5]),
+    return [('PKPD(dosed by a protocol object)', pkpd_protocol, mech_mut), ('PKPD(dosed)', pkpd(), mech_mut), ('PKPD(dosed, direct, sensitivities on)', pkpd(True, True), mech_mut), ('SBML(tumour growth)', lambda: c.SBMLModel([f for f in lib if f.endswith('tgi_Koch_2009.xml')][0]), mech_mut[2:5]),
             ('Reduced(PKPD dosed){one fixed}', reduced, mech_mut), ('copy of Reduced(PKPD dosed)', reduced_of_reduced_copy, mech_mut)]
 
 
